@@ -92,3 +92,57 @@ Proof. intros depsf st n H. unfold resolve_scope. rewrite H. reflexivity. Qed.
 Print Assumptions C05_default_scope.
 Theorem C05_declared_scope_kept : forall depsf st n, declared_scope st n <> OScDefault -> resolve_scope depsf st n = declared_scope st n.
 Proof. intros depsf st n H. unfold resolve_scope. destruct (declared_scope st n); congruence. Qed.
+
+From GV Require Import Runtime.RT Runtime.Load Proofs.RTProofs Proofs.HistProofs.
+From Coq Require Import List NArith.
+Import ListNotations.
+
+(** ---- instance identity over WHOLE HISTORIES of operations on one container (Proofs/HistProofs.v): [run_ops st ops] executes any
+    list of Get / GetInContext / GetTaggedBy / GetParam / OverrideParam / OverrideService / new-context operations ---- *)
+
+(** shared: any two successful gets of the service - with or without context, at any two positions of any history without service
+    overrides (parameter overrides allowed) - return the same object *)
+Theorem C05_shared_identity_over_histories : forall (id : str) (ops : list op) (st st' : rt) (rs : list (result value)),
+  run_ops st ops = (st', rs) -> resolve_scope rt_depsf st id = Compile.OScShared -> no_override_service ops ->
+  forall (i j : nat) (oi oj : op) (vi vj : value),
+    nth_error ops i = Some oi -> is_get_of id oi -> nth_error rs i = Some (ROk vi) ->
+    nth_error ops j = Some oj -> is_get_of id oj -> nth_error rs j = Some (ROk vj) -> vi = vj.
+Proof. exact shared_identity. Qed.
+Print Assumptions C05_shared_identity_over_histories.
+
+(** contextual: within one context the same object (as long as the context is not re-created in between) ... *)
+Theorem C05_contextual_same_context_over_histories : forall (id : str) (c : N) (ops : list op) (st st' : rt) (rs : list (result value)),
+  run_ops st ops = (st', rs) -> resolve_scope rt_depsf st id = Compile.OScContextual -> no_override_service ops ->
+  forall (i j : nat) (vi vj : value),
+    (forall (m : nat) (o : op), i < m < j \/ j < m < i -> nth_error ops m = Some o -> o <> ONewCtx c) ->
+    nth_error ops i = Some (OGetCtx c id) -> nth_error rs i = Some (ROk vi) ->
+    nth_error ops j = Some (OGetCtx c id) -> nth_error rs j = Some (ROk vj) -> vi = vj.
+Proof. exact contextual_same_context. Qed.
+Print Assumptions C05_contextual_same_context_over_histories.
+
+(** ... and in two different contexts two different instances, never a shared one *)
+Theorem C05_contextual_distinct_contexts_over_histories : forall (id : str) (ops : list op) (st st' : rt) (rs : list (result value)),
+  run_ops st ops = (st', rs) -> resolve_scope rt_depsf st id = Compile.OScContextual -> ctor_at id st -> ctx_inv id st -> no_override_service ops ->
+  forall (i j : nat) (c1 c2 : N) (vi vj : value), c1 <> c2 ->
+    nth_error ops i = Some (OGetCtx c1 id) -> nth_error rs i = Some (ROk vi) ->
+    nth_error ops j = Some (OGetCtx c2 id) -> nth_error rs j = Some (ROk vj) ->
+    exists si sj : N, top_serial vi = Some si /\ top_serial vj = Some sj /\ si <> sj.
+Proof. exact contextual_distinct_contexts. Qed.
+Print Assumptions C05_contextual_distinct_contexts_over_histories.
+
+(** non_shared: every get builds a fresh instance (strictly increasing serial numbers along the history) *)
+Theorem C05_non_shared_fresh_over_histories : forall (id : str) (ops : list op) (st st' : rt) (rs : list (result value)),
+  run_ops st ops = (st', rs) -> resolve_scope rt_depsf st id = Compile.OScNonShared -> ctor_at id st ->
+  Forall (fun o : op => ~ overrides_service id o) ops ->
+  forall (i j : nat) (oi oj : op) (vi vj : value), i < j ->
+    nth_error ops i = Some oi -> is_get_of id oi -> nth_error rs i = Some (ROk vi) ->
+    nth_error ops j = Some oj -> is_get_of id oj -> nth_error rs j = Some (ROk vj) ->
+    exists si sj : N, top_serial vi = Some si /\ top_serial vj = Some sj /\ (si < sj)%N.
+Proof. exact nonshared_fresh. Qed.
+Print Assumptions C05_non_shared_fresh_over_histories.
+
+(** the hypotheses hold of every freshly loaded container *)
+Theorem C05_loaded_container_invariants : forall E o c envv id,
+  defs_le (load E o c envv) /\ serial_inv (load E o c envv) /\ ctx_inv id (load E o c envv).
+Proof. intros. destruct (load_serial_inv E o c envv) as [A B]. split; [exact A|]. split; [exact B|]. apply ctx_inv_load. Qed.
+Print Assumptions C05_loaded_container_invariants.
